@@ -83,7 +83,8 @@ impl TombstoneLog {
                     let tombstone = Tombstone::read(buf);
                     if tombstone.sequence > seq {
                         seq = tombstone.sequence;
-                        addr = slot * Tombstone::SERIALIZED_LEN;
+                        // Address in the log, not in the page.
+                        addr = offset + slot * Tombstone::SERIALIZED_LEN;
                     }
                     if tombstone.sequence == 0 {
                         continue;
